@@ -51,6 +51,11 @@ func (e *seqEngine) Run(a *agg, spec *PropSpec, seed uint64) {
 	sc.Admission = e.admission
 	if e.saveLoad {
 		pl := &SaveLoadPlan{ChunkSeed: rng.Uint64(), MaxChunk: []int{0, 1, 3, 17, 400}[rng.Intn(5)], CleanUp: rng.Bool()}
+		if sc.Cfg.Executor == "queued" {
+			// a held executor: the save finds writes still in the write buffer and scheduled drains that
+			// have not run (an explicit CleanUp before the save would hide exactly that)
+			pl.HoldExec, pl.CleanUp = true, false
+		}
 		switch rng.Intn(5) {
 		case 0:
 			pl.Delta = 0
